@@ -1,4 +1,4 @@
-From Coq Require Import List NArith ZArith Bool String Lia.
+From Coq Require Import List NArith ZArith Bool String Lia Permutation.
 From Bandit Require Import Base.PyStr Ast.Node Engine.Types Engine.Tester Engine.Visitor Engine.Metrics
      Cli.Thresholds Proofs.PyStrFacts Proofs.VisitorFacts.
 Import ListNotations.
@@ -240,6 +240,38 @@ Theorem totals_are_sums K blocks :
 Proof.
   repeat split; try reflexivity; unfold aggregate; cbn [tt_sev tt_conf];
     apply in_map_iff; exists r; auto.
+Qed.
+
+(* ----- totals do not depend on the order in which the files were scanned, and compose over parts of a run ----- *)
+Lemma sumZ_app l1 l2 : sumZ (l1 ++ l2) = sumZ l1 + sumZ l2.
+Proof. unfold sumZ. induction l1 as [|x l1 IH]; cbn [app fold_right]; [reflexivity | rewrite IH; lia]. Qed.
+
+Lemma sumZ_perm l l' : Permutation l l' -> sumZ l = sumZ l'.
+Proof.
+  unfold sumZ. induction 1 as [|x l l' _ IH|x y l|l l' l'' _ IH1 _ IH2]; cbn [fold_right]; [reflexivity | rewrite IH; reflexivity | lia | congruence].
+Qed.
+
+Theorem totals_order_insensitive K blocks blocks' :
+  Permutation blocks blocks' -> aggregate K blocks = aggregate K blocks'.
+Proof.
+  intro P. unfold aggregate.
+  rewrite (sumZ_perm _ _ (Permutation_map fb_loc P)),
+          (sumZ_perm _ _ (Permutation_map fb_nosec P)),
+          (sumZ_perm _ _ (Permutation_map fb_skipped P)).
+  f_equal; apply map_ext; intro r; f_equal; apply sumZ_perm, Permutation_map, P.
+Qed.
+
+Theorem totals_compose K b1 b2 :
+  tt_loc (aggregate K (b1 ++ b2)) = tt_loc (aggregate K b1) + tt_loc (aggregate K b2) /\
+  tt_nosec (aggregate K (b1 ++ b2)) = tt_nosec (aggregate K b1) + tt_nosec (aggregate K b2) /\
+  tt_skipped (aggregate K (b1 ++ b2)) = tt_skipped (aggregate K b1) + tt_skipped (aggregate K b2) /\
+  tt_sev (aggregate K (b1 ++ b2)) =
+    map (fun r => (r, sumZ (map (fun b => block_rank (fb_sev b) r) b1) + sumZ (map (fun b => block_rank (fb_sev b) r) b2))) (k_ranking K) /\
+  tt_conf (aggregate K (b1 ++ b2)) =
+    map (fun r => (r, sumZ (map (fun b => block_rank (fb_conf b) r) b1) + sumZ (map (fun b => block_rank (fb_conf b) r) b2))) (k_ranking K).
+Proof.
+  unfold aggregate. cbn [tt_loc tt_nosec tt_skipped tt_sev tt_conf]. rewrite !map_app, !sumZ_app.
+  repeat split; apply map_ext; intro r; rewrite map_app, sumZ_app; reflexivity.
 Qed.
 
 (* lines of code: neither blank (ASCII whitespace only) nor comment-only *)
